@@ -304,3 +304,37 @@ class SymEnv:
                 for n in ast.walk(t):
                     if isinstance(n, ast.Name) and isinstance(n.ctx, ast.Store):
                         self.env[n.id] = f"?{n.id}@{st.lineno}"
+
+
+def infeasible(p: SymPath) -> bool:
+    """the path decides the same test both ways although nothing between the two decisions can change it: no statement of
+    the path in between assigns a name the test reads, and none calls a method on an object the test reads (self.m() may
+    change self.attr)"""
+    seen: Dict[str, Tuple[bool, int]] = {}
+    for t, pol in p.conds:
+        if not isinstance(t, ast.AST) or not hasattr(t, "lineno"):
+            continue
+        txt = norm(t)
+        if txt in seen and seen[txt][0] is not pol:
+            lo, hi = sorted((seen[txt][1], t.lineno))
+            reads = {n.id for n in ast.walk(t) if isinstance(n, ast.Name)}
+            changed = False
+            for st in p.stmts:
+                if not (lo <= getattr(st, "lineno", -1) <= hi):
+                    continue
+                for n in ast.walk(st):
+                    if isinstance(n, ast.Name) and isinstance(n.ctx, ast.Store) and n.id in reads:
+                        changed = True
+                    if isinstance(n, ast.Call) and isinstance(n.func, ast.Attribute) and isinstance(n.func.value, ast.Name) \
+                            and n.func.value.id in reads:
+                        changed = True
+                    if isinstance(n, (ast.Attribute, ast.Subscript)) and isinstance(n.ctx, ast.Store):
+                        b = n
+                        while isinstance(b, (ast.Attribute, ast.Subscript)):
+                            b = b.value
+                        if isinstance(b, ast.Name) and b.id in reads:
+                            changed = True
+            if not changed:
+                return True
+        seen.setdefault(txt, (pol, t.lineno))
+    return False
